@@ -25,6 +25,8 @@ from pybtex.style import FormattedEntry, FormattedBibliography
 from pybtex.style.template import node, join
 from pybtex.richtext import Symbol
 from pybtex.plugin import Plugin, find_plugin
+from pybtex.database import BibliographyDataError
+from pybtex.errors import report_error
 
 
 @node
@@ -84,7 +86,15 @@ class BaseStyle(Plugin):
         if citations is None:
             citations = list(bib_data.entries.keys())
         citations = bib_data.add_extra_citations(citations, self.min_crossrefs)
+        citations = list(self.remove_missing_citations(bib_data, citations))
         entries = [bib_data.entries[key] for key in citations]
         formatted_entries = self.format_entries(entries, bib_data)
         formatted_bibliography = FormattedBibliography(formatted_entries, style=self, preamble=bib_data.preamble)
         return formatted_bibliography
+
+    def remove_missing_citations(self, bib_data, citations):
+        for citation in citations:
+            if citation in bib_data.entries:
+                yield citation
+            else:
+                report_error(BibliographyDataError('missing database entry for "{0}"'.format(citation)))
